@@ -33,6 +33,7 @@ pub enum HiddenKind {
     StderrNotTty,
     StdoutNotTty,
     StderrHzNotTty,
+    StdoutHzNotTty,
     MultiNotTty,
 }
 
@@ -48,6 +49,7 @@ impl HiddenKind {
             HiddenKind::StderrNotTty => "stderr-not-a-tty",
             HiddenKind::StdoutNotTty => "stdout-not-a-tty",
             HiddenKind::StderrHzNotTty => "stderr-with-hz-not-a-tty",
+            HiddenKind::StdoutHzNotTty => "stdout-with-hz-not-a-tty",
             HiddenKind::MultiNotTty => "multi-on-non-tty",
         }
     }
@@ -119,6 +121,7 @@ fn make_pair(kind: HiddenKind, len: Option<u64>, fin: &ProgressFinish) -> Pair {
         HiddenKind::StderrNotTty => (ProgressBar::with_draw_target(len, ProgressDrawTarget::stderr()).with_style(style()).with_finish(fin.clone()), None, None),
         HiddenKind::StdoutNotTty => (mk(ProgressDrawTarget::stdout()), None, None),
         HiddenKind::StderrHzNotTty => (mk(ProgressDrawTarget::stderr_with_hz(60)), None, None),
+        HiddenKind::StdoutHzNotTty => (mk(ProgressDrawTarget::stdout_with_hz(5)), None, None),
         HiddenKind::MultiNotTty => {
             let mp = MultiProgress::new();
             let pb = mp.add(mk(ProgressDrawTarget::hidden()));
@@ -242,6 +245,10 @@ fn one_history(kind: HiddenKind, rng: &mut Rng, replay: &str) -> (Verdict, u64, 
         if a != b {
             return (viol("state-differs-from-visible-twin", feats.clone(), format!("after {name}: hidden bar {a:?}, visible twin {b:?}"), w(), replay.to_string()), ops, history);
         }
+        // a bar without a terminal says so (and the twin, which has one, does not)
+        if !h.is_hidden() || t.is_hidden() {
+            return (viol("is-hidden-wrong", feats.clone(), format!("after {name}: is_hidden() = {} on the bar without terminal, {} on the visible twin", h.is_hidden(), t.is_hidden()), w(), replay.to_string()), ops, history);
+        }
         if let (Some(spy), Some(base)) = (&pair.watch, base_calls) {
             if spy.calls() != base {
                 return (
@@ -287,7 +294,7 @@ pub fn child_main(seed: u64, first: u64, n: u64, out: &str) {
     let mut rep = Report::default();
     for i in first..first + n {
         let mut rng = Rng::derive(seed, 66, i);
-        let kind = [HiddenKind::StderrNotTty, HiddenKind::StdoutNotTty, HiddenKind::StderrHzNotTty, HiddenKind::MultiNotTty][(i % 4) as usize];
+        let kind = [HiddenKind::StderrNotTty, HiddenKind::StdoutNotTty, HiddenKind::StderrHzNotTty, HiddenKind::MultiNotTty, HiddenKind::StdoutHzNotTty][(i % 5) as usize];
         let (v, ops, history) = one_history(kind, &mut rng, &format!("p{seed}:{i}"));
         let mut co = CaseOut::held(fnv1a(format!("{kind:?}{history:?}").as_bytes()), ops >= 2);
         co.verdict = v;
